@@ -23,6 +23,9 @@ func init() {
 	register(&PropertyRule{ID: "C08", Explain: "structural necessary conditions of C08 (apply stream): see DESIGN.md §5 C08", Run: func(c *Check) {
 		gApply(c)
 	}})
+	register(&PropertyRule{ID: "C19", Explain: "structural conditions of C19 (determinism): all nondeterminism sources, map iterations and globals in code reachable from the API; see DESIGN.md §5 C19", Run: func(c *Check) {
+		c19Determinism(c)
+	}})
 	register(&PropertyRule{ID: "C03", Explain: "structural necessary conditions of C03 (log matching): see DESIGN.md §5 C03", Run: func(c *Check) {
 		gTrunc(c)
 		gStable(c)
